@@ -763,16 +763,18 @@ func (p *parser) assignCallee(exp ast.Expression, calleeIdent *ast.Identifier) (
 	assignedCallee = nil
 	switch ss := exp.(type) {
 	case *ast.IndexExpression:
-		ff, ok := ss.Left.(*ast.Identifier)
-		if ok {
-			ff.OriginalCallee.Callee = calleeIdent
+		// x[i].a.b[j]: the new callee belongs in front of whatever is indexed
+		if p.assignCallee(ss.Left, calleeIdent) != nil {
 			assignedCallee = ss
-		} else {
-			msg := fmt.Sprintf("line %d: syntax error: invalid nested index access, expected an identifier %v", p.curToken.LineNumber, ss)
-			p.errors = append(p.errors, msg)
 		}
 	case *ast.CallExpression:
-		ss.Callee = calleeIdent
+		if root := rootIdentifier(ss.Callee); root != nil {
+			// x[i].a.b.f(): keep the call's own receiver path (a.b) and
+			// put the new callee in front of it
+			root.Callee = calleeIdent
+		} else {
+			ss.Callee = calleeIdent
+		}
 		assignedCallee = ss
 	case *ast.Identifier:
 		ss.OriginalCallee.Callee = calleeIdent
@@ -783,6 +785,20 @@ func (p *parser) assignCallee(exp ast.Expression, calleeIdent *ast.Identifier) (
 	}
 
 	return
+}
+
+// rootIdentifier returns the first identifier of a receiver path (a in a.b.c).
+func rootIdentifier(exp ast.Expression) *ast.Identifier {
+	id, ok := exp.(*ast.Identifier)
+	if !ok || id == nil {
+		return nil
+	}
+
+	for id.Callee != nil {
+		id = id.Callee
+	}
+
+	return id
 }
 
 func (p *parser) parseHashLiteral() ast.Expression {
